@@ -237,8 +237,9 @@ def _c12(tier):
     res = Results("C12")
     # footprint monitor: every engine-style harness linked against the shared (-z now) build
     jobs = []
-    for h, nw in (("engine", 8), ("queries", 4), ("tok", 2), ("sortsearch", 2), ("fmt", 4), ("misc", 1)):
+    for h, nw in (("engine", 8), ("queries", 4), ("tok", 2), ("sortsearch", 2), ("fmt", 4), ("misc", 1), ("cons", 1), ("wfmt", 1)):
         jobs += harness_jobs(h, "C12", tier, ["shared"], nw=nw)
+    jobs += mbconv_jobs("C12", tier, ["shared"])
     run_workers(jobs, res)
     fp_checks = res.counters.get("footprint_checks", 0)
     # interference monitor
@@ -259,11 +260,13 @@ def _c12(tier):
     res.evaluations = fp_checks + res.counters.get("thread_calls", 0)
     floor_ok = fp_checks > 1000 and res.counters.get("calls_overlapping_same_function", 0) > 100
     return finish(res, tier, "exploration",
-                  "footprint: every call made by the engine/queries/tok/sortsearch workloads against the shared build is bracketed by a byte snapshot of the library's .data/.bss "
-                  "(handler variables excluded); interference: 8 and 16 threads x 12 call kinds (sorting incl. >256-byte elements, asctime_s/ctime_s, %Lf, %f>1e9, wide no-space, "
-                  "copies, formatting, tokenising) on thread-private data with thread-tagged expectations; race detector: same binary under -fsanitize=thread; "
+                  "footprint: every call made by the engine/queries/tok/sortsearch/fmt/misc/cons/wfmt/mbconv workloads against the shared build is bracketed by a byte snapshot of the library's .data/.bss "
+                  "(handler variables excluded); interference: 8 and 16 threads x 25 call kinds (sorting incl. >256-byte elements, bsearch_s, asctime_s/ctime_s/gmtime_s/localtime_s, strerror_s, getenv_s, "
+                  "%Lf, %f>1e9, %g/%e, wide printf success and no-space, vfprintf_s to private streams read back afterwards, wcsnorm_s, wcsfc_s, mbstowcs_s/wcstombs_s, copies, formatting, strtok_s/wcstok_s) "
+                  "on thread-private data with thread-tagged expectations; race detector: same binary under -fsanitize=thread; "
                   "distinct = (function, whether same-function overlap was observed) + engine class signatures", t0,
-                  extra_cov=dict(builds=["shared", "plain", "tsan"], harnesses=["engine", "queries", "tok", "sortsearch", "threads"], footprint_checks=fp_checks,
+                  extra_cov=dict(builds=["shared", "plain", "tsan"], harnesses=["engine", "queries", "tok", "sortsearch", "fmt", "misc", "cons", "wfmt", "mbconv", "threads"], footprint_checks=fp_checks,
+                                 per_function_overlap={k.split("|", 1)[1]: v for k, v in res.counters.items() if k.startswith("thread_calls_overlapping_same_function|")},
                                  thread_calls=res.counters.get("thread_calls", 0), calls_overlapping_same_function=res.counters.get("calls_overlapping_same_function", 0),
                                  tsan_distinct_reports=len(races)),
                   assumptions=["static storage inside libc reached by the library (asctime, getenv, locale) is invisible to the footprint monitor and to TSan",
